@@ -90,12 +90,16 @@ func initEngine(memLimit int64) {
 	}
 }
 
-func openShard(name string) (*engine.VerifC04Shard, error) {
+func openShard(name string) (*engine.VerifC04Shard, error) { return openShardCold(name, coldDuration) }
+
+func openShardCold(name string, cold time.Duration) (*engine.VerifC04Shard, error) {
 	dir := filepath.Join(workDir(), name)
 	_ = os.RemoveAll(dir)
 	st := time.Date(1970, 1, 1, 1, 0, 0, 0, time.UTC)
 	en := time.Date(2099, 1, 1, 1, 0, 0, 0, time.UTC)
-	return engine.VerifC04OpenShard(dir, engOpt, 1, st, en)
+	opt := engOpt
+	opt.WriteColdDuration = cold
+	return engine.VerifC04OpenShard(dir, opt, 1, st, en)
 }
 
 func seriesTag(s int) string { return "s" + strconv.Itoa(s) }
